@@ -335,6 +335,12 @@ class World:
         except Exception:
             return {"child_died": "bad output"}
 
+    def direct(self, fn):
+        """Counterpart of isolated() for operations on the shared state: the same number of Python
+        frames sits below the check either way, so a program that exhausts the recursion limit
+        does so at the same point in an isolated and in a shared-Checker world."""
+        return fn()
+
     def run(self):
         annotate_default = bool(self.spec.get("annotate", True))
         for i, op in enumerate(self.spec["ops"]):
@@ -348,12 +354,12 @@ class World:
                     rec["iso"] = True
                     rec["obs"] = self.isolated(lambda: self.do_check(pid, ann))
                 else:
-                    rec["obs"] = self.do_check(pid, ann)
+                    rec["obs"] = self.direct(lambda: self.do_check(pid, ann))
                     rec["inv"] = self.invariants()
             elif kind == "recheck":
                 pid = op["pid"]
                 rec["pid"] = pid
-                rec["obs"] = self.do_recheck(pid, op.get("annotate", annotate_default))
+                rec["obs"] = self.direct(lambda: self.do_recheck(pid, op.get("annotate", annotate_default)))
                 rec["inv"] = self.invariants()
             elif kind == "files":
                 rec["mode"] = op["mode"]
